@@ -877,7 +877,8 @@ fn dump<'tcx>(tcx: TyCtxt<'tcx>, out_path: &str) {
     for ld in tcx.mir_keys(()).iter() {
         let did = ld.to_def_id();
         let kind = tcx.def_kind(did);
-        if !matches!(kind, DefKind::Fn | DefKind::AssocFn | DefKind::Closure) {
+        // tuple-struct / tuple-variant constructors are functions too (`.map(Label::SixBytesLabel)`)
+        if !matches!(kind, DefKind::Fn | DefKind::AssocFn | DefKind::Closure | DefKind::Ctor(..)) {
             continue;
         }
         let body = tcx.optimized_mir(did);
